@@ -248,7 +248,7 @@ void c13_case(Tape& t, Ctx& ctx) {
   } else ctx.nontrivial = true;
   bool by_points = t.flag();
   std::vector<double> tp = c.time_points();
-  Spline sp = by_points ? Spline(tp, c.P, c.bc) : Spline(c.T, c.P, c.t0, c.bc);
+  Spline sp = build_spline_hist<D, S>(t, ctx, c, by_points);
   const auto& C = sp.getTrajectory().getCoefficients();
   ctx.label(std::string("order:") + SplineOf<D, S>::name());
   if (S == 4) ctx.label(D <= 3 ? "septic:D<=3" : "septic:D>3");
@@ -347,6 +347,12 @@ void c13_case(Tape& t, Ctx& ctx) {
     VCHECK(ctx, fabsl(etmD(i) - esum_times(i)) <= TAU_ADJ * D * esum_t_abs + tau_zero(S) * enatT + 1e-280L, "times-gradient-sum",
            who << ": energy duration gradient " << i << " is " << lg(etmD(i)) << " but the sum over the one-dimensional splines is " << lg(esum_times(i)));
   }
+  // ---- the D-dimensional object's answers do not depend on the other spline objects that were built and queried in between
+  {
+    Grads gD2 = sp.propagateGrad(gC, gT);
+    Grads eD2 = sp.getEnergyGrad();
+    VCHECK(ctx, gsame<S>(gD, gD2) && gsame<S>(eD, eD2), "other-objects-interfere", who << ": propagateGrad / getEnergyGrad of the D-dimensional spline give a different answer after " << D << " one-dimensional splines of the same class were built and queried");
+  }
   // ---- coordinate permutation
   {
     int perm[D]; for (int d = 0; d < D; ++d) perm[d] = d;
@@ -404,7 +410,7 @@ void c14_case(Tape& t, Ctx& ctx) {
   constexpr int nc = 2 * S;
   SplineCase<D> c = gen_spline_case<D>(t, S, wellscaled_ratio(S), 10, 16, false);
   const int N = c.N;
-  Spline sp(c.T, c.P, c.t0, c.bc);
+  Spline sp = build_spline_hist<D, S>(t, ctx, c);
   const MatrixType C = sp.getTrajectory().getCoefficients();
   const double E = sp.getEnergy();
   const Grads G = sp.getEnergyGrad();
@@ -464,7 +470,7 @@ void c14_case(Tape& t, Ctx& ctx) {
       for (int d = 0; d < D; ++d) w(d) = dyadic ? t.sym(64 * 1000) / 64.0 : t.sym(640) / 64.0 * cd.M * 4;
       SplineCase<D> ct = cd;
       for (int i = 0; i <= N; ++i) for (int d = 0; d < D; ++d) ct.P(i, d) = cd.P(i, d) + w(d);
-      Spline a(cd.T, cd.P, cd.t0, cd.bc), b(ct.T, ct.P, ct.t0, ct.bc);
+      Spline a = build_spline_hist<D, S>(t, ctx, cd), b = build_spline_hist<D, S>(t, ctx, ct);
       const auto& Ca = a.getTrajectory().getCoefficients(); const auto& Cb = b.getTrajectory().getCoefficients();
       ld wmax = 0; for (int d = 0; d < D; ++d) wmax = std::max(wmax, fabsl((ld)w(d)));
       for (int i = 0; i < N; ++i)
@@ -499,7 +505,7 @@ void c14_case(Tape& t, Ctx& ctx) {
       SplineCase<D> cs = c;
       cs.P = c.P * lam;
       for (int m = 1; m <= 3; ++m) { cs.bc_field(false, m) = c.bc_field(false, m) * lam; cs.bc_field(true, m) = c.bc_field(true, m) * lam; }
-      Spline b(cs.T, cs.P, cs.t0, cs.bc);
+      Spline b = build_spline_hist<D, S>(t, ctx, cs);
       const auto& Cb = b.getTrajectory().getCoefficients();
       Grads Gb = b.getEnergyGrad();
       MatL p2m, b2m; VecL t2m;
@@ -532,7 +538,7 @@ void c14_case(Tape& t, Ctx& ctx) {
       SplineCase<D> cs = c;
       for (auto& x : cs.T) x *= mu;
       for (int m = 1; m <= 3; ++m) { double f = std::pow(mu, -m); if (p2) f = pow2i(-k2 * m); cs.bc_field(false, m) = c.bc_field(false, m) * f; cs.bc_field(true, m) = c.bc_field(true, m) * f; }
-      Spline b(cs.T, cs.P, cs.t0, cs.bc);
+      Spline b = build_spline_hist<D, S>(t, ctx, cs);
       const auto& Cb = b.getTrajectory().getCoefficients();
       if (p2) {
         bool ok = true; std::string fd;
@@ -577,7 +583,7 @@ void c14_case(Tape& t, Ctx& ctx) {
       for (int i = 0; i < N; ++i) cr.T[i] = c.T[N - 1 - i];
       for (int i = 0; i <= N; ++i) cr.P.row(i) = c.P.row(N - i);
       for (int m = 1; m <= 3; ++m) { double sgn = (m & 1) ? -1.0 : 1.0; cr.bc_field(false, m) = c.bc_field(true, m) * sgn; cr.bc_field(true, m) = c.bc_field(false, m) * sgn; }
-      Spline b(cr.T, cr.P, cr.t0, cr.bc);
+      Spline b = build_spline_hist<D, S>(t, ctx, cr);
       const auto& Cb = b.getTrajectory().getCoefficients();
       const ld tr = S == 4 ? 1e-7L : tau_fwd(S) * 10;
       // x_rev on segment j at local u equals x on segment N-1-j at local T-u, derivative m with sign (-1)^m
